@@ -341,6 +341,7 @@ theorem quote_avoids (safe : List Nat) (s : Str) (hv : validStr s = true) (d : N
   simp [hd] at this
 
 
+
 /-! ## the `urlparse` model inverts the assembly of a URI from delimiter-free pieces -/
 
 /-- the pieces a built URI is made of (user / password already quoted) -/
@@ -348,6 +349,8 @@ structure Parts where
   scheme : Str
   ui : Option (Str × Option Str)
   host : Str
+  /-- the host is written in brackets -/
+  br : Bool
   portText : Option Str
   tail : Str
 
@@ -357,8 +360,14 @@ def Parts.auth (p : Parts) : Str :=
   | some (u, none) => u ++ [64]
   | some (u, some w) => u ++ [58] ++ w ++ [64]
 
-def Parts.hostport (p : Parts) : Str :=
-  p.host ++ (match p.portText with | none => [] | some t => 58 :: t)
+def Parts.hostText (p : Parts) : Str := if p.br then 91 :: (p.host ++ [93]) else p.host
+
+def Parts.portPart (p : Parts) : Str :=
+  match p.portText with
+  | none => []
+  | some t => 58 :: t
+
+def Parts.hostport (p : Parts) : Str := p.hostText ++ p.portPart
 
 def Parts.netloc (p : Parts) : Str := p.auth ++ p.hostport
 
@@ -376,18 +385,70 @@ def okTail (c : Nat) : Bool := !(c == 63 || c == 35 || c == 59 || c == 9 || c ==
 
 structure PartsOk (p : Parts) : Prop where
   scheme : validScheme p.scheme = true
-  net : p.netloc.all okNet = true
+  auth : p.auth.all okNet = true
+  host : p.host.all okNet = true
+  port : p.portPart.all okNet = true
+  brok : p.br = true → bracketedHostOk p.host = true
   tail : p.tail.all okTail = true
 
 theorem schemeChar_facts (c : Nat) (h : isSchemeChar c = true) : c ≠ 58 ∧ c ≠ 9 ∧ c ≠ 13 ∧ c ≠ 10 ∧ c < 128 := by
   simp only [isSchemeChar, isAsciiAlpha, isDigit, Bool.or_eq_true, Bool.and_eq_true, decide_eq_true_eq, beq_iff_eq] at h
   omega
 
+theorem okNet_facts (c : Nat) (h : okNet c = true) :
+    c ≠ 47 ∧ c ≠ 63 ∧ c ≠ 35 ∧ c ≠ 91 ∧ c ≠ 93 ∧ c ≠ 9 ∧ c ≠ 10 ∧ c ≠ 13 := by
+  simp [okNet] at h; omega
+
+/-- every netloc character is harmless or one of the two brackets -/
+theorem netloc_chars (p : Parts) (ok : PartsOk p) : ∀ c ∈ p.netloc, okNet c = true ∨ c = 91 ∨ c = 93 := by
+  intro c hc
+  have ha := List.all_eq_true.mp ok.auth
+  have hh := List.all_eq_true.mp ok.host
+  have hp := List.all_eq_true.mp ok.port
+  simp only [Parts.netloc, Parts.hostport, Parts.hostText, List.mem_append] at hc
+  rcases hc with hc | hc | hc
+  · exact Or.inl (ha c hc)
+  · split at hc
+    · simp only [List.mem_cons, List.mem_append, List.not_mem_nil, or_false] at hc
+      rcases hc with rfl | hc | rfl
+      · exact Or.inr (Or.inl rfl)
+      · exact Or.inl (hh c hc)
+      · exact Or.inr (Or.inr rfl)
+    · exact Or.inl (hh c hc)
+  · exact Or.inl (hp c hc)
+
+theorem not_mem_of_all_okNet (l : Str) (h : l.all okNet = true) (d : Nat) (hd : okNet d = false) : d ∉ l := by
+  intro hm
+  have := List.all_eq_true.mp h d hm
+  simp [hd] at this
+
+theorem netloc_br (p : Parts) (ok : PartsOk p) :
+    p.netloc.contains 91 = p.br ∧ p.netloc.contains 93 = p.br ∧ (p.br = true → bracketed p.netloc = p.host) := by
+  have a91 := not_mem_of_all_okNet _ ok.auth 91 (by decide)
+  have a93 := not_mem_of_all_okNet _ ok.auth 93 (by decide)
+  have h91 := not_mem_of_all_okNet _ ok.host 91 (by decide)
+  have h93 := not_mem_of_all_okNet _ ok.host 93 (by decide)
+  have p91 := not_mem_of_all_okNet _ ok.port 91 (by decide)
+  have p93 := not_mem_of_all_okNet _ ok.port 93 (by decide)
+  cases hbr : p.br with
+  | false =>
+    refine ⟨?_, ?_, by simp⟩ <;>
+      simp [Parts.netloc, Parts.hostport, Parts.hostText, hbr, a91, a93, h91, h93, p91, p93]
+  | true =>
+    refine ⟨?_, ?_, ?_⟩
+    · simp [Parts.netloc, Parts.hostport, Parts.hostText, hbr]
+    · simp [Parts.netloc, Parts.hostport, Parts.hostText, hbr]
+    · intro _
+      have e : p.netloc = p.auth ++ 91 :: (p.host ++ 93 :: p.portPart) := by
+        simp [Parts.netloc, Parts.hostport, Parts.hostText, hbr]
+      simp only [bracketed, e, breakOn_append 91 _ _ a91, breakOn_append 93 _ _ h93]
+
 theorem urlparse_assemble (p : Parts) (ok : PartsOk p) :
     urlparse (assemble p) = .ok ⟨p.scheme.map lowerAscii, p.netloc, 47 :: p.tail, []⟩ := by
-  obtain ⟨hs, hn, ht⟩ := ok
-  have hn' : ∀ c ∈ p.netloc, okNet c = true := List.all_eq_true.mp hn
-  have ht' : ∀ c ∈ p.tail, okTail c = true := List.all_eq_true.mp ht
+  have hn' := netloc_chars p ok
+  have ht' : ∀ c ∈ p.tail, okTail c = true := List.all_eq_true.mp ok.tail
+  obtain ⟨hO, hC, hB⟩ := netloc_br p ok
+  have hs := ok.scheme
   match hsc : p.scheme, hs with
   | x :: xs, hs =>
     simp only [validScheme, Bool.and_eq_true] at hs
@@ -397,7 +458,6 @@ theorem urlparse_assemble (p : Parts) (ok : PartsOk p) :
       simp only [isAsciiAlpha, Bool.or_eq_true, Bool.and_eq_true, decide_eq_true_eq] at hx; omega
     have hx128 : x < 128 := (schemeChar_facts x (hall' x (by simp))).2.2.2.2
     have h58 : 58 ∉ x :: xs := fun hm => (schemeChar_facts 58 (hall' 58 hm)).1 rfl
-    -- the text
     have hu : assemble p = (x :: xs) ++ 58 :: ([47, 47] ++ p.netloc ++ 47 :: p.tail) := by
       simp [assemble, hsc]
     have hstrip : lstripC0 (assemble p) = assemble p := by
@@ -412,7 +472,10 @@ theorem urlparse_assemble (p : Parts) (ok : PartsOk p) :
       · decide
       · decide
       · decide
-      · have := hn' c hc; simp [okNet] at this; omega
+      · rcases hn' c hc with h | rfl | rfl
+        · have := okNet_facts c h; omega
+        · decide
+        · decide
       · decide
       · have := ht' c hc; simp [okTail] at this; omega
     unfold urlparse
@@ -424,7 +487,11 @@ theorem urlparse_assemble (p : Parts) (ok : PartsOk p) :
     rw [hsplit]
     have hbp : breakP isNetlocEnd (p.netloc ++ 47 :: p.tail) = (p.netloc, 47 :: p.tail) := by
       apply breakP_append
-      · intro c hc; have := hn' c hc; simp [okNet] at this; simp [isNetlocEnd]; omega
+      · intro c hc
+        rcases hn' c hc with h | rfl | rfl
+        · have := okNet_facts c h; simp [isNetlocEnd]; omega
+        · decide
+        · decide
       · decide
     have h35 : breakOn 35 (47 :: p.tail) = none := by
       apply breakOn_none
@@ -439,19 +506,18 @@ theorem urlparse_assemble (p : Parts) (ok : PartsOk p) :
     have h59 : 59 ∉ p.tail := by
       intro hm
       have := ht' 59 hm; simp [okTail] at this
-    have h91 : 91 ∉ p.netloc := by
-      intro hm
-      have := hn' 91 hm; simp [okNet] at this
-    have h93 : 93 ∉ p.netloc := by
-      intro hm
-      have := hn' 93 hm; simp [okNet] at this
-    simp [startsWith, hbp, h35, h63, h59, h91, h93]
-
+    have hdrop : ([47, 47] ++ p.netloc ++ 47 :: p.tail).drop 2 = p.netloc ++ 47 :: p.tail := by simp
+    have hsw : startsWith [47, 47] ([47, 47] ++ p.netloc ++ 47 :: p.tail) = true := by simp [startsWith]
+    simp only [hsw, if_true, hdrop, hbp, hO, hC, bne_self_eq_false, Bool.false_eq_true, if_false]
+    cases hbr : p.br with
+    | false => simp [h35, h63, h59]
+    | true => simp [hB hbr, ok.brok hbr, h35, h63, h59]
 
 structure PartsSep (p : Parts) : Prop where
-  at_hostport : 64 ∉ p.hostport
+  at_host : 64 ∉ p.host
+  at_port : 64 ∉ p.portPart
   colon_user : ∀ u w, p.ui = some (u, w) → 58 ∉ u
-  colon_host : 58 ∉ p.host
+  colon_host : p.br = false → 58 ∉ p.host
 
 def Parts.user (p : Parts) : Option Str := p.ui.map (·.1)
 def Parts.password (p : Parts) : Option Str := p.ui.bind (·.2)
@@ -460,8 +526,15 @@ def Parts.port (p : Parts) : Option Str :=
   | some t => if t.isEmpty then none else some t
   | none => none
 
+theorem at_hostport (p : Parts) (sep : PartsSep p) : 64 ∉ p.hostport := by
+  have h1 := sep.at_host
+  have h2 := sep.at_port
+  unfold Parts.hostport Parts.hostText
+  split <;> simp [h1, h2]
+
 theorem userinfo_netloc (p : Parts) (sep : PartsSep p) : userinfo p.netloc = (p.user, p.password) := by
-  obtain ⟨h64, hcu, _⟩ := sep
+  have h64 := at_hostport p sep
+  have hcu := sep.colon_user
   unfold userinfo Parts.netloc Parts.auth Parts.user Parts.password
   match hui : p.ui with
   | none =>
@@ -476,29 +549,48 @@ theorem userinfo_netloc (p : Parts) (sep : PartsSep p) : userinfo p.netloc = (p.
     simp only [this, rbreakOn_append 64 _ _ h64, breakOn_append 58 u w (hcu u (some w) hui)]
     simp
 
-theorem hostinfo_netloc (p : Parts) (sep : PartsSep p) : hostinfo p.netloc = (p.host, p.port) := by
-  obtain ⟨h64, _, hch⟩ := sep
-  have hhi : hostpart p.netloc = p.hostport := by
-    unfold hostpart Parts.netloc Parts.auth
-    match hui : p.ui with
-    | none =>
-      simp only [List.nil_append]
-      rw [rbreakOn_none 64 _ h64]
-    | some (u, none) =>
-      have : u ++ [64] ++ p.hostport = u ++ 64 :: p.hostport := by simp
-      simp only [this, rbreakOn_append 64 u _ h64]
-    | some (u, some w) =>
-      have : u ++ [58] ++ w ++ [64] ++ p.hostport = (u ++ 58 :: w) ++ 64 :: p.hostport := by simp
-      simp only [this, rbreakOn_append 64 _ _ h64]
+theorem hostpart_netloc (p : Parts) (sep : PartsSep p) : hostpart p.netloc = p.hostport := by
+  have h64 := at_hostport p sep
+  unfold hostpart Parts.netloc Parts.auth
+  match hui : p.ui with
+  | none =>
+    simp only [List.nil_append]
+    rw [rbreakOn_none 64 _ h64]
+  | some (u, none) =>
+    have : u ++ [64] ++ p.hostport = u ++ 64 :: p.hostport := by simp
+    simp only [this, rbreakOn_append 64 u _ h64]
+  | some (u, some w) =>
+    have : u ++ [58] ++ w ++ [64] ++ p.hostport = (u ++ 58 :: w) ++ 64 :: p.hostport := by simp
+    simp only [this, rbreakOn_append 64 _ _ h64]
+
+theorem hostinfo_netloc (p : Parts) (ok : PartsOk p) (sep : PartsSep p) : hostinfo p.netloc = (p.host, p.port) := by
+  have h91 := not_mem_of_all_okNet _ ok.host 91 (by decide)
+  have h93 := not_mem_of_all_okNet _ ok.host 93 (by decide)
+  have p91 := not_mem_of_all_okNet _ ok.port 91 (by decide)
   unfold hostinfo
-  simp only [hhi]
-  unfold Parts.hostport Parts.port
-  match p.portText with
-  | none => simp [breakOn_none 58 _ hch]
-  | some t => simp [breakOn_append 58 _ t hch]
+  simp only [hostpart_netloc p sep]
+  cases hbr : p.br with
+  | true =>
+    have e : p.hostport = [] ++ 91 :: (p.host ++ 93 :: p.portPart) := by
+      simp [Parts.hostport, Parts.hostText, hbr]
+    simp only [e, breakOn_append 91 [] _ (by simp), breakOn_append 93 _ _ h93]
+    unfold Parts.portPart Parts.port
+    match p.portText with
+    | none => simp [breakOn]
+    | some t => simp [breakOn]
+  | false =>
+    have hch := sep.colon_host hbr
+    have e : p.hostport = p.host ++ p.portPart := by simp [Parts.hostport, Parts.hostText, hbr]
+    have hno : 91 ∉ p.host ++ p.portPart := by simp [h91, p91]
+    simp only [e, breakOn_none 91 _ hno]
+    unfold Parts.portPart Parts.port
+    match p.portText with
+    | none => simp [breakOn_none 58 _ hch]
+    | some t => simp [breakOn_append 58 _ t hch]
 
 theorem parseQsl_nil : parseQsl [] = [] := by simp [parseQsl]
 
+/-- the parser on an assembled URI: the pieces come back (decoded), or ValueError for a bad port -/
 theorem parseURI_assemble (p : Parts) (ok : PartsOk p) (sep : PartsSep p) :
     parseURI (assemble p) =
       match portOfText p.port with
@@ -514,9 +606,459 @@ theorem parseURI_assemble (p : Parts) (ok : PartsOk p) (sep : PartsSep p) :
               args := [] } := by
   unfold parseURI
   rw [urlparse_assemble p ok]
-  simp only [userinfo_netloc p sep, portOf, hostname, hostinfo_netloc p sep, parseQsl_nil, dictOf, List.foldl_nil]
+  simp only [userinfo_netloc p sep, portOf, hostname, hostinfo_netloc p ok sep, parseQsl_nil, dictOf, List.foldl_nil]
   generalize portOfText p.port = r
   cases r <;> rfl
 
+
+/-! ## the sqlite builder -/
+open Extracted
+
+theorem all_ok_of_quote (safe bad : List Nat) (ok : Nat → Bool) (hbad : ∀ x, ok x = false → x ∈ bad)
+    (hq : ∀ d ∈ bad, quoteChar safe d = false) (s : Str) (hv : validStr s = true) :
+    (quoteBytes safe (utf8 s)).all ok = true := by
+  rw [List.all_eq_true]
+  intro x hx
+  cases h : ok x with
+  | true => rfl
+  | false => exact absurd hx (quote_avoids safe s hv x (hq x (hbad x h)))
+
+theorem okTail_bad (x : Nat) (h : okTail x = false) : x ∈ [63, 35, 59, 9, 10, 13] := by
+  simp [okTail] at h; simp; omega
+
+theorem okNet_bad (x : Nat) (h : okNet x = false) : x ∈ [47, 63, 35, 91, 93, 9, 10, 13] := by
+  simp [okNet] at h; simp; omega
+
+theorem utf8_cons_ascii (c : Nat) (l : Str) (h : c < 128) : utf8 (c :: l) = c :: utf8 l := by
+  simp [utf8, utf8Cp, h]
+
+theorem quoteBytes_cons_safe (safe : List Nat) (b : Nat) (bs : List Nat) (h : isSafe safe b = true) :
+    quoteBytes safe (b :: bs) = b :: quoteBytes safe bs := by
+  simp [quoteBytes, quoteByte, h]
+
+theorem validStr_cons (c : Nat) (l : Str) : validStr (c :: l) = (validCp c && validStr l) := by
+  simp [validStr]
+
+theorem startsWith_slash (fn : Str) (h : startsWith [47] fn = true) : ∃ t, fn = 47 :: t := by
+  match fn with
+  | [] => simp [startsWith] at h
+  | x :: t =>
+    simp [startsWith, List.isPrefixOf] at h
+    exact ⟨t, by rw [h]⟩
+
+/-- the scheme of the sqlite builder (its prefix without the colon) -/
+def sqliteScheme : Str := sqlitePrefix.dropLast
+
+theorem sqlite_abs_uri (t : Str) (hv : validStr (47 :: t) = true) :
+    sqliteUri (47 :: t) = .ok (assemble ⟨sqliteScheme, none, [], false, none, quoteBytes sqliteSafe (utf8 t)⟩) := by
+  have hv' : validStr t = true := by
+    rw [validStr_cons] at hv; simp at hv; exact hv.2
+  have hne : (47 :: t) ≠ sqliteMemoryName := by
+    intro h; simp [sqliteMemoryName] at h
+  have hvv : validStr (47 :: 47 :: 47 :: t) = true := by
+    simp [validStr_cons, hv', validCp]
+  have h47 : isSafe sqliteSafe 47 = true := by decide
+  simp only [sqliteUri, hne, if_false]
+  have hp : (if startsWith sqliteAbsTest (47 :: t) = true then sqliteAbsPrefix else sqliteRelPrefix) ++ (47 :: t)
+      = 47 :: 47 :: 47 :: t := by
+    simp [startsWith, sqliteAbsTest, sqliteAbsPrefix, List.isPrefixOf]
+  rw [hp, quote_ok _ _ hvv]
+  simp only [utf8_cons_ascii 47 _ (by decide), quoteBytes_cons_safe _ _ _ h47]
+  simp [assemble, Parts.netloc, Parts.auth, Parts.hostport, Parts.hostText, Parts.portPart, sqliteScheme, sqlitePrefix]
+
+theorem sqlite_parts_ok (t : Str) (hv : validStr t = true) :
+    PartsOk ⟨sqliteScheme, none, [], false, none, quoteBytes sqliteSafe (utf8 t)⟩ where
+  scheme := by show validScheme sqliteScheme = true; decide
+  auth := by simp [Parts.auth]
+  host := by simp
+  port := by simp [Parts.portPart]
+  brok := by simp
+  tail := all_ok_of_quote sqliteSafe _ okTail okTail_bad (by decide) t hv
+
+theorem sqlite_parts_sep (t : Str) : PartsSep ⟨sqliteScheme, none, [], false, none, quoteBytes sqliteSafe (utf8 t)⟩ where
+  at_host := by simp
+  at_port := by simp [Parts.portPart]
+  colon_user := by intro u w h; simp at h
+  colon_host := by simp
+
+theorem sqlite_abs_parse (t : Str) (hv : validStr (47 :: t) = true) :
+    ∃ u, sqliteUri (47 :: t) = .ok u ∧ parseURI u = .ok ⟨none, none, none, none, 47 :: t, []⟩ := by
+  have hv' : validStr t = true := by
+    rw [validStr_cons] at hv; simp at hv; exact hv.2
+  refine ⟨_, sqlite_abs_uri t hv, ?_⟩
+  rw [parseURI_assemble _ (sqlite_parts_ok t hv') (sqlite_parts_sep t)]
+  have hq : quote sqliteSafe t = some (quoteBytes sqliteSafe (utf8 t)) := quote_ok _ _ hv'
+  have hun : unquote (47 :: quoteBytes sqliteSafe (utf8 t)) = 47 :: t := by
+    rw [unquote_cons 47 _ (by decide) (by decide) (quoteBytes_ascii _ _ (utf8_lt t hv')),
+      unquote_quote sqliteSafe t _ (by decide) hq]
+  simp [Parts.port, Parts.user, Parts.password, portOfText, nonEmpty?, truthyS, hostnameOf, hun]
+
+
+/-! ## the generic builder -/
+open Extracted
+
+def okHostChar (c : Nat) : Bool := okNet c && c != 64
+
+/-- a host the generic builder can express: no URI delimiter / bracket / `@` / tab, CR, LF;
+    already lower-case (before a `%`); with a colon only if it is an IPv6 literal -/
+def wfHost (h : Str) : Bool :=
+  h.all okHostChar && lowerHost h == h && (if h.contains 58 then bracketedHostOk h else true)
+
+/-- well-formed connection description, port aside -/
+structure WfBase (c : Conn) : Prop where
+  scheme : validScheme c.scheme = true
+  user : ∀ u, truthyS c.user = some u → validStr u = true
+  password : ∀ p, truthyS c.password = some p → validStr p = true ∧ (truthyS c.user).isSome = true
+  db : validStr c.db = true
+  host : ∀ h, truthyS c.host = some h → wfHost h = true
+
+/-- … and the port is absent (`None` / 0) or in 1..65535 -/
+structure WfConn (c : Conn) : Prop extends WfBase c where
+  port : ∀ p, truthyI c.port = some p → 1 ≤ p ∧ p ≤ 65535
+
+def partsOf (c : Conn) : Parts :=
+  { scheme := c.scheme
+    ui := match truthyS c.user with
+      | none => none
+      | some u => some (quoteBytes userSafe (utf8 u),
+          (truthyS c.password).map fun p => quoteBytes passwordSafe (utf8 p))
+    host := (truthyS c.host).getD []
+    br := ((truthyS c.host).getD []).contains 58
+    portText := (truthyI c.port).map fmtD
+    tail := quoteBytes dbSafe (utf8 (dbOf c)) }
+
+theorem truthyS_ne (x : Option Str) (u : Str) (h : truthyS x = some u) : ∃ a l, u = a :: l := by
+  unfold truthyS at h
+  split at h
+  · rename_i a l; simp at h; exact ⟨a, l, h.symm⟩
+  · simp at h
+
+theorem quoteBytes_utf8_ne (safe : List Nat) (a : Nat) (l : Str) : quoteBytes safe (utf8 (a :: l)) ≠ [] := by
+  rw [utf8_cons]
+  have h1 := utf8Cp_length_pos a
+  match hb : utf8Cp a with
+  | [] => simp [hb] at h1
+  | b :: bs =>
+    simp only [List.cons_append, quoteBytes, List.flatMap_cons]
+    unfold quoteByte
+    split <;> simp
+
+theorem nonEmpty_some (q : Str) (h : q ≠ []) : nonEmpty? (some q) = some q := by
+  match q, h with
+  | a :: l, _ => rfl
+
+theorem validStr_dbOf (c : Conn) (h : validStr c.db = true) : validStr (dbOf c) = true := by
+  unfold dbOf
+  split
+  · simp only [validStr, List.all_eq_true] at h ⊢
+    intro x hx
+    exact h x (List.mem_of_mem_drop hx)
+  · exact h
+
+theorem wfHost_facts (h : Str) (w : wfHost h = true) :
+    h.all okNet = true ∧ 64 ∉ h ∧ lowerHost h = h ∧ (h.contains 58 = true → bracketedHostOk h = true) := by
+  simp only [wfHost, Bool.and_eq_true, beq_iff_eq] at w
+  obtain ⟨⟨h1, h2⟩, h3⟩ := w
+  have h1' := List.all_eq_true.mp h1
+  refine ⟨?_, ?_, h2, ?_⟩
+  · rw [List.all_eq_true]; intro x hx
+    have := h1' x hx; simp [okHostChar] at this; exact this.1
+  · intro hm; have := h1' 64 hm; simp [okHostChar] at this
+  · intro hc
+    have hm : 58 ∈ h := by simpa using hc
+    simp only [hc, if_true] at h3
+    exact h3
+
+theorem hostText_eq (h : Str) (hn : h.all okNet = true) :
+    hostText h = if h.contains 58 then 91 :: (h ++ [93]) else h := by
+  have h91 : 91 ∉ h := not_mem_of_all_okNet h hn 91 (by decide)
+  have hsw : startsWith hostBracketSkip h = false := by
+    match h, h91 with
+    | [], _ => simp [startsWith, hostBracketSkip]
+    | x :: xs, h91 =>
+      have : 91 ≠ x := fun e => h91 (by simp [e])
+      simp [startsWith, hostBracketSkip, List.isPrefixOf, this]
+  simp [hostText, hasChar, hostBracketTest, hostBracketOpen, hostBracketClose, hsw]
+
+theorem fmtD_pos (p : Int) (h1 : 1 ≤ p) : fmtD p = decDigits p.toNat := by
+  unfold fmtD
+  rw [if_neg (by omega)]
+
+theorem genericUri_eq (c : Conn) (wf : WfBase c) : genericUri c = .ok (assemble (partsOf c)) := by
+  have hauth : authOf c = .ok (partsOf c).auth := by
+    unfold authOf partsOf Parts.auth
+    cases hu : truthyS c.user with
+    | none =>
+      cases hp : truthyS c.password with
+      | none => simp
+      | some p => have := (wf.password p hp).2; simp [hu] at this
+    | some u =>
+      simp only [quote_ok _ _ (wf.user u hu)]
+      cases hp : truthyS c.password with
+      | none => simp [authEnd]
+      | some p => simp [quote_ok _ _ (wf.password p hp).1, passwordSep, authEnd]
+  have hhp : hostportOf c = (partsOf c).hostport := by
+    unfold hostportOf partsOf Parts.hostport Parts.hostText Parts.portPart
+    cases hh : truthyS c.host with
+    | none => cases hp : truthyI c.port <;> simp [portSep]
+    | some h =>
+      have hf := wfHost_facts h (wf.host h hh)
+      cases hp : truthyI c.port <;> simp [portSep, hostText_eq h hf.1]
+  unfold genericUri
+  simp only [hauth, quote_ok _ _ (validStr_dbOf c wf.db), hhp]
+  simp [assemble, Parts.netloc, partsOf, schemeSep, pathSep]
+
+
+
+theorem digits_okNet (l : Str) (h : ∀ c ∈ l, isDigit c = true) : l.all okNet = true := by
+  rw [List.all_eq_true]; intro c hc
+  have := h c hc
+  simp [isDigit] at this
+  simp [okNet]; omega
+
+theorem digits_no_at (l : Str) (h : ∀ c ∈ l, isDigit c = true) : 64 ∉ l := by
+  intro hm; have := h 64 hm; simp [isDigit] at this
+
+theorem fmtD_chars (p : Int) : ∀ x ∈ fmtD p, isDigit x = true ∨ x = 45 := by
+  intro x hx
+  unfold fmtD at hx
+  split at hx
+  · simp only [List.mem_cons] at hx
+    rcases hx with rfl | hx
+    · exact Or.inr rfl
+    · exact Or.inl (decDigits_digits _ x hx)
+  · exact Or.inl (decDigits_digits _ x hx)
+
+theorem portPart_facts (c : Conn) :
+    (partsOf c).portPart.all okNet = true ∧ 64 ∉ (partsOf c).portPart := by
+  unfold Parts.portPart partsOf
+  cases hp : truthyI c.port with
+  | none => simp
+  | some p =>
+    have hd := fmtD_chars p
+    simp only [Option.map_some]
+    refine ⟨?_, ?_⟩
+    · simp only [List.all_cons, Bool.and_eq_true]
+      refine ⟨by decide, List.all_eq_true.mpr ?_⟩
+      intro x hx
+      rcases hd x hx with h | rfl
+      · simp [isDigit] at h; simp [okNet]; omega
+      · decide
+    · intro hm
+      simp at hm
+      rcases hd 64 hm with h | h
+      · simp [isDigit] at h
+      · simp at h
+
+theorem auth_okNet (c : Conn) (wf : WfBase c) : (partsOf c).auth.all okNet = true := by
+  unfold Parts.auth partsOf
+  cases hu : truthyS c.user with
+  | none => simp
+  | some u =>
+    have qu := all_ok_of_quote userSafe _ okNet okNet_bad (by decide) u (wf.user u hu)
+    cases hp : truthyS c.password with
+    | none => simp [List.all_append, qu]; decide
+    | some p =>
+      have qp := all_ok_of_quote passwordSafe _ okNet okNet_bad (by decide) p (wf.password p hp).1
+      simp [List.all_append, qu, qp]; decide
+
+theorem partsOf_ok (c : Conn) (wf : WfBase c) : PartsOk (partsOf c) where
+  scheme := wf.scheme
+  auth := auth_okNet c wf
+  host := by
+    show ((truthyS c.host).getD []).all okNet = true
+    cases hh : truthyS c.host with
+    | none => simp
+    | some h => exact (wfHost_facts h (wf.host h hh)).1
+  port := (portPart_facts c).1
+  brok := by
+    show ((truthyS c.host).getD []).contains 58 = true → bracketedHostOk ((truthyS c.host).getD []) = true
+    cases hh : truthyS c.host with
+    | none => simp
+    | some h => exact (wfHost_facts h (wf.host h hh)).2.2.2
+  tail := all_ok_of_quote dbSafe _ okTail okTail_bad (by decide) (dbOf c) (validStr_dbOf c wf.db)
+
+theorem partsOf_sep (c : Conn) (wf : WfBase c) : PartsSep (partsOf c) where
+  at_host := by
+    show 64 ∉ (truthyS c.host).getD []
+    cases hh : truthyS c.host with
+    | none => simp
+    | some h => exact (wfHost_facts h (wf.host h hh)).2.1
+  at_port := (portPart_facts c).2
+  colon_user := by
+    intro u w h
+    simp only [partsOf] at h
+    cases hu : truthyS c.user with
+    | none => simp [hu] at h
+    | some u' =>
+      simp only [hu, Option.some.injEq, Prod.mk.injEq] at h
+      rw [← h.1]
+      exact quote_avoids userSafe u' (wf.user u' hu) 58 (by decide)
+  colon_host := by
+    intro hbr
+    have : ((truthyS c.host).getD []).contains 58 = false := hbr
+    show 58 ∉ (truthyS c.host).getD []
+    simpa using this
+
+
+
+theorem user_back (c : Conn) (wf : WfBase c) :
+    (nonEmpty? (partsOf c).user).map unquote = truthyS c.user := by
+  unfold Parts.user partsOf
+  cases hu : truthyS c.user with
+  | none => rfl
+  | some u =>
+    obtain ⟨a, l, rfl⟩ := truthyS_ne _ _ hu
+    simp only [Option.map_some]
+    rw [nonEmpty_some _ (quoteBytes_utf8_ne userSafe a l)]
+    simp only [Option.map_some]
+    rw [unquote_quote userSafe (a :: l) _ (by decide) (quote_ok _ _ (wf.user _ hu))]
+
+theorem password_back (c : Conn) (wf : WfBase c) :
+    (nonEmpty? (partsOf c).password).map unquote = truthyS c.password := by
+  unfold Parts.password partsOf
+  cases hp : truthyS c.password with
+  | none =>
+    cases hu : truthyS c.user <;> rfl
+  | some p =>
+    have hpw := wf.password p hp
+    cases hu : truthyS c.user with
+    | none => simp [hu] at hpw
+    | some u =>
+      obtain ⟨a, l, rfl⟩ := truthyS_ne _ _ hp
+      simp only [Option.map_some, Option.bind_some]
+      rw [nonEmpty_some _ (quoteBytes_utf8_ne passwordSafe a l)]
+      simp only [Option.map_some]
+      rw [unquote_quote passwordSafe (a :: l) _ (by decide) (quote_ok _ _ hpw.1)]
+
+theorem host_back (c : Conn) (wf : WfBase c) : hostnameOf (partsOf c).host = truthyS c.host := by
+  show hostnameOf ((truthyS c.host).getD []) = truthyS c.host
+  cases hh : truthyS c.host with
+  | none => rfl
+  | some h =>
+    obtain ⟨a, l, rfl⟩ := truthyS_ne _ _ hh
+    have := (wfHost_facts _ (wf.host _ hh)).2.2.1
+    simp [hostnameOf, this]
+
+theorem port_back (c : Conn) (wf : WfConn c) :
+    portOfText (partsOf c).port = some ((truthyI c.port).map Int.toNat) ∧
+    ∀ n, (truthyI c.port).map Int.toNat = some n → n ≠ 0 := by
+  unfold Parts.port partsOf
+  cases hp : truthyI c.port with
+  | none => simp [portOfText]
+  | some p =>
+    have hr := wf.port p hp
+    have hd := decDigits_digits p.toNat
+    have hne := decDigits_ne_nil p.toNat
+    simp only [Option.map_some, fmtD_pos p hr.1]
+    have he : (decDigits p.toNat).isEmpty = false := by
+      cases h : decDigits p.toNat with
+      | nil => exact absurd h hne
+      | cons _ _ => rfl
+    simp only [he]
+    refine ⟨?_, ?_⟩
+    · have hall : (decDigits p.toNat).all isDigit = true := List.all_eq_true.mpr hd
+      have hle : parseDec (decDigits p.toNat) ≤ 65535 := by rw [parseDec_decDigits]; omega
+      simp [portOfText, hall, parseDec_decDigits]
+      exact hr.2
+    · intro n hn
+      simp at hn
+      omega
+
+theorem path_back (c : Conn) (wf : WfBase c) : unquote (47 :: (partsOf c).tail) = 47 :: dbOf c := by
+  have hv := validStr_dbOf c wf.db
+  show unquote (47 :: quoteBytes dbSafe (utf8 (dbOf c))) = 47 :: dbOf c
+  rw [unquote_cons 47 _ (by decide) (by decide) (quoteBytes_ascii _ _ (utf8_lt _ hv)),
+    unquote_quote dbSafe _ _ (by decide) (quote_ok _ _ hv)]
+
+/-- the generic builder's URI parses back to the components (absent = `None`, `''` or port 0) -/
+theorem parse_build (c : Conn) (wf : WfConn c) :
+    ∃ u, genericUri c = .ok u ∧
+      parseURI u = .ok ⟨truthyS c.user, truthyS c.password, truthyS c.host,
+        (truthyI c.port).map Int.toNat, 47 :: dbOf c, []⟩ := by
+  have wb := wf.toWfBase
+  refine ⟨_, genericUri_eq c wb, ?_⟩
+  rw [parseURI_assemble _ (partsOf_ok c wb) (partsOf_sep c wb)]
+  obtain ⟨hp1, hp2⟩ := port_back c wf
+  simp only [hp1, user_back c wb, password_back c wb, host_back c wb, path_back c wb]
+  cases hq : (truthyI c.port).map Int.toNat with
+  | none => rfl
+  | some n =>
+    have := hp2 n hq
+    match n, this with
+    | n + 1, _ => rfl
+
+/-! ## bad ports -/
+
+/-- a URI assembled from well-formed pieces and an arbitrary port text -/
+def withPortText (c : Conn) (t : Str) : Parts := { partsOf c with portText := some t }
+
+theorem bad_port (c : Conn) (wf : WfBase c) (t : Str) (hne : t ≠ [])
+    (hchars : t.all (fun x => okNet x && x != 64) = true)
+    (hbad : ¬ (t.all isDigit = true ∧ parseDec t ≤ 65535)) :
+    parseURI (assemble (withPortText c t)) = .valueError := by
+  have ht := List.all_eq_true.mp hchars
+  have ok := partsOf_ok c wf
+  have sep := partsOf_sep c wf
+  have ok' : PartsOk (withPortText c t) :=
+    { scheme := ok.scheme, auth := ok.auth, host := ok.host, brok := ok.brok, tail := ok.tail
+      port := by
+        show (58 :: t).all okNet = true
+        simp only [List.all_cons, Bool.and_eq_true]
+        refine ⟨by decide, List.all_eq_true.mpr ?_⟩
+        intro x hx; have := ht x hx; simp at this; exact this.1 }
+  have sep' : PartsSep (withPortText c t) :=
+    { at_host := sep.at_host, colon_user := sep.colon_user, colon_host := sep.colon_host
+      at_port := by
+        show 64 ∉ 58 :: t
+        intro hm
+        simp at hm
+        have := ht 64 hm; simp at this }
+  rw [parseURI_assemble _ ok' sep']
+  have hport : (withPortText c t).port = some t := by
+    show (if t.isEmpty then none else some t) = some t
+    cases t with
+    | nil => exact absurd rfl hne
+    | cons _ _ => rfl
+  rw [hport]
+  unfold portOfText
+  by_cases h1 : t.all isDigit = true
+  · have h2 : ¬ parseDec t ≤ 65535 := fun h => hbad ⟨h1, h⟩
+    simp [h1, h2]
+  · simp [h1]
+
+
+theorem parseDec_nonneg_toNat (p : Int) (h : 0 ≤ p) : parseDec (fmtD p) = p.toNat := by
+  unfold fmtD
+  rw [if_neg (by omega), parseDec_decDigits]
+
+/-- a connection whose port is negative or above 65535 reports a URI that the parser rejects -/
+theorem bad_port_built (c : Conn) (wf : WfBase c) (p : Int) (hc : c.port = some p) (hp : p < 0 ∨ 65535 < p) :
+    ∃ u, genericUri c = .ok u ∧ parseURI u = .valueError := by
+  refine ⟨_, genericUri_eq c wf, ?_⟩
+  rw [parseURI_assemble _ (partsOf_ok c wf) (partsOf_sep c wf)]
+  have ht : truthyI c.port = some p := by
+    simp only [hc, truthyI]; rw [if_neg (by omega)]
+  have hne : (fmtD p).isEmpty = false := by
+    unfold fmtD
+    split
+    · rfl
+    · cases h : decDigits p.toNat with
+      | nil => exact absurd h (decDigits_ne_nil _)
+      | cons _ _ => rfl
+  have hport : (partsOf c).port = some (fmtD p) := by
+    simp [Parts.port, partsOf, ht, hne]
+  rw [hport]
+  unfold portOfText
+  rcases hp with hneg | hbig
+  · have : (fmtD p).all isDigit = false := by
+      unfold fmtD
+      rw [if_pos hneg]
+      simp [isDigit]
+    simp [this]
+  · by_cases h1 : (fmtD p).all isDigit = true
+    · have : ¬ parseDec (fmtD p) ≤ 65535 := by rw [parseDec_nonneg_toNat p (by omega)]; omega
+      simp [h1, this]
+    · simp [h1]
 
 end SqlObjVerif.Uri
